@@ -3710,7 +3710,9 @@ def splitValue(value, delim):
     else:
         parts = re.split(delim, value)
         for part in parts:
-            result.addItem(ValueString(part))
+            # a group of the delimiter that took no part in a match
+            # contributes an empty string, not the host's None
+            result.addItem(ValueString(part if part is not None else ""))
     return result
 
 
